@@ -19,7 +19,9 @@ from pathlib import Path
 VERIF = Path(__file__).resolve().parent.parent
 REPO = Path(os.environ.get("VERIF_REPO", "/repo"))
 SPEC = VERIF / "spec"
-EVIDENCE = VERIF / "evidence"
+# runs against a scratch worktree (VERIF_REPO=..., used only to try seeded or property-preserving changes) must not
+# overwrite the evidence of /repo
+EVIDENCE = VERIF / "evidence" if str(REPO) == "/repo" else VERIF / ".scratch" / "evidence_other_tree"
 REPLAYS = EVIDENCE / "replays"
 GUARD = "SIGPYPROC3_VERIF"
 
@@ -197,7 +199,7 @@ def finish(v: Verdict) -> int:
         "wall_s": round(time.time() - v.t0, 2),
         "violations": len(fresh),
     }
-    EVIDENCE.mkdir(exist_ok=True)
+    EVIDENCE.mkdir(parents=True, exist_ok=True)
     (EVIDENCE / f"{v.pid}.json").write_text(json.dumps(ev, indent=1, default=str))
     status = "VIOLATED" if fresh else "held"
     print(f"[{v.pid}] {status}: states={v.states} transitions={v.transitions} "
